@@ -9,6 +9,9 @@
 (*                                                                          *)
 (* The CA under test holds AS 1 and AS 2 (not AS 3), 10.0.0.0/16 and        *)
 (* 2001:db8::/32; the harness maps the atoms below onto these resources.    *)
+(* A state may contain entries for resources the CA held when they were     *)
+(* configured and has lost since (u4, u6, AS 3): they can be removed but    *)
+(* not added, replaced or otherwise re-asserted.                            *)
 EXTENDS Naturals, Integers, Sequences, FiniteSets
 
 ----------------------------------------------------------------------------
@@ -246,9 +249,11 @@ CfgOK(kind, cfg) ==
       [] kind = "rtr" -> RtrCfgOK(cfg)
       [] OTHER -> ChildCfgOK(cfg)
 
-\* nothing that is not backed by held resources is ever created or kept
-\* by an accepted request, and a refused request changes nothing
+\* nothing that is not backed by held resources is ever created or
+\* re-asserted by an accepted request (whatever the state contained
+\* before), and a refused request changes nothing
 Preserves(c) == /\ CfgOK(c.kind, c.state) => CfgOK(c.kind, Outcome(c).cfg)
+                /\ CfgOK(c.kind, Outcome(c).cfg \ c.state)
                 /\ AllOrNothing(c)
 
 \* an implicit maximum length is the same payload as the explicit one
